@@ -121,6 +121,13 @@ BUFFERINGS = [None, None, None, 1, -1, -1, 2, 16, 64, 4096, 1 << 20]   # None = 
 LINE_ENDS = ["\n", "\n", "\n", "\n", "|", "", ";\t"]
 
 
+def is_number(r):
+    """a real number, whatever its Python type (the property speaks of the quantity, not of `float`)"""
+    import numbers
+    return isinstance(r, (numbers.Real, decimal.Decimal)) and not isinstance(r, bool) and r == r \
+        and r not in (float("inf"), float("-inf"))
+
+
 def spell_size(rng, value, prefix_i, binary, bits):
     """value: Fraction with power-of-ten denominator, in the unit given -> spelling"""
     num = R.fmt_dec(value)
@@ -145,6 +152,16 @@ def gen_limit(rng, around):
     """a limit near `around` bytes -> (python object, wire item, floor, how)"""
     S = max(1, around)
     k = rng.below(10)
+    if k < 3 and rng.chance(15):
+        # other real numbers `_make_rotation_function` takes for a size: a Fraction, a bool, zero, a negative number
+        j = rng.below(4)
+        if j == 0:
+            return Fraction(2 * S + 1, 2), "N%d" % S, S, "Fraction"
+        if j == 1:
+            return True, "N1", 1, "bool"
+        if j == 2:
+            return 0, "N0", 0, "zero"
+        return -3, "N-3", -3, "negative"
     if k < 3:
         return S, "N%d" % S, S, "int"
     if k == 3:
@@ -367,6 +384,178 @@ def run_foreign_case(S, P, ops, buffering=None):
         shutil.rmtree(d, ignore_errors=True)
 
 
+def float_obs(r):
+    """what the driver op `sizef` prints for a Python result of parse_size"""
+    if r is None:
+        return "none"
+    if isinstance(r, Exception):
+        return "err " + R.canon_err(r)
+    if r != r:
+        return "nan"
+    if r in (float("inf"), float("-inf")):
+        return "inf" if r > 0 else "-inf"
+    n, d = r.as_integer_ratio()
+    return "%d/%d" % (n, d)
+
+
+def model_float_obs(o):
+    p = o.split(" ")
+    if p[0] != "ok":
+        return o
+    n, d = (int(x) for x in p[1].split("/"))
+    fr = Fraction(n, d)
+    return "%d/%d" % (fr.numerator, fr.denominator)
+
+
+def gen_number_spelling(rng):
+    """number part of a size spelling as `float()` reads it: many digits, fractions that are not dyadic, exponents,
+    magnitudes from subnormal to overflow, signs"""
+    k = rng.below(12)
+    if k < 3:
+        s = str(rng.range(0, 10**rng.range(1, 6)))
+    elif k < 5:
+        s = "%d.%s" % (rng.range(0, 5000), "".join(rng.choice("0123456789") for _ in range(rng.range(1, 20))))
+    elif k == 5:
+        s = "".join(rng.choice("0123456789") for _ in range(rng.range(16, 40)))          # beyond 2^53
+    elif k == 6:
+        s = "%d.%de%s%d" % (rng.range(0, 99), rng.range(0, 10**6), rng.choice(["", "+", "-"]), rng.range(0, 40))
+    elif k == 7:
+        s = "%de%s%d" % (rng.range(1, 9999), rng.choice(["", "-"]), rng.choice([300, 307, 308, 309, 320, 323, 324, 330, 400]))
+    elif k == 8:
+        s = rng.choice(["0.1", "0.57", "4.35", "2.675", "1.15", "0.3", "1.1", "0.7", "1e23", "9007199254740993",
+                        "9007199254740992", "4503599627370497.5", "0.0000001", ".5", "5.", "1e-7", "123456789.123456789"])
+    elif k == 9:
+        s = "." + "".join(rng.choice("0123456789") for _ in range(rng.range(1, 25)))
+    elif k == 10:
+        s = "%d" % (2 ** rng.range(40, 70) + rng.choice([-1, 0, 1]))
+    else:
+        s = "%d.%d" % (rng.range(0, 10**4), rng.choice([5, 25, 75, 125, 375, 0]))
+    if rng.chance(8):
+        s = rng.choice(["+", "-"]) + s
+    if rng.chance(10):
+        s = s.replace("e", "E")
+    return s
+
+
+def run_float_stream(ctx, drv, rng):
+    """parse_size bit for bit: the double Python returns against `Rotation.parseSizeF` (binary64 model of
+    `float(number)` and of the regenerated formula `s * i**u / b`), on spellings whose numbers need rounding."""
+    from loguru import _string_parsers as sp
+    lines, exp = [], []
+    for i in range(ctx.n(2000, 60000)):
+        num = gen_number_spelling(rng)
+        prefix_i = rng.choice([0, 0, 1, 1, 2, 3, 4, 5, 6, 7, 8])
+        binary = rng.chance(40) and prefix_i > 0
+        u = PREFIX[prefix_i - 1] if prefix_i else ""
+        if u and rng.chance(50):
+            u = u.upper()
+        gap = rng.choice(["", " "])
+        if u in ("e", "E") and gap == "":
+            gap = " "
+        if not u and gap == "" and num[-1] in "eE":
+            gap = " "
+        text = num + gap + u + (rng.choice(["i", "I"]) if binary else "") + rng.choice(["b", "B", "B"])
+        try:
+            r = sp.parse_size(text)
+        except Exception as ex:  # noqa
+            r = ex
+        ctx.case(("sizef", text), nontrivial=isinstance(r, float))
+        ctx.stat("parse_size_binary64")
+        if isinstance(r, float) and r not in (float("inf"), float("-inf")) and r.as_integer_ratio()[1] != 1:
+            ctx.stat("parse_size_binary64:fractional")
+        lines.append("sizef " + enc(text))
+        exp.append((text, float_obs(r)))
+    try:
+        out = drv.run(lines)
+    except core.DriverError as e:
+        ctx.broke("driver:" + DRIVER, str(e))
+        out = []
+    for (text, want), o in zip(exp, out):
+        ctx.traces_validated += 1
+        if model_float_obs(o) != want:
+            ctx.stat("disagreements")
+            ctx.broke("correspondence Rotation.parseSizeF", "parse_size(%r): Python %s, binary64 model %s" % (text, want, o))
+
+
+def run_text_stream(ctx, drv, rng):
+    """CPython's text stream in append mode against `Rotation/Stream.lean` (the hand-written model under
+    `buffered_tell_is_file_size`): open(path, "a", buffering=…) like FileSink does, then random writes, appends by
+    another descriptor, and the three ways of reading "the size of the file" (`seek(0, 2); tell()`, `tell()` alone,
+    `os.fstat`).  Direct oracle for the assumption the size bound rests on: `seek(0, 2); tell()` IS the number of bytes
+    the file really holds (pre-existing + own writes, flushed or not, + foreign appends), whatever the buffering."""
+    import shutil
+    import tempfile
+    d = tempfile.mkdtemp(prefix="verif-stream-")
+    lines, exp = [], []
+    try:
+        for i in range(ctx.n(250, 8000)):
+            path = os.path.join(d, "s%d.log" % i)
+            P = rng.choice([0, 0, 7, rng.range(1, 300)])
+            with open(path, "wb") as fh:
+                fh.write(b"p" * P)
+            buffering = rng.choice([1, 1, -1, 2, 16, 64, 4096, 1 << 20])
+            newline = rng.choice(["default", "default", "", "\n", "\r\n"])
+            kw = {} if newline == "default" else {"newline": newline}
+            f = open(path, mode="a", buffering=buffering, encoding="utf8", **kw)
+            toks, vals, total = [], [], P
+            try:
+                for _ in range(rng.range(2, 12)):
+                    k = rng.below(10)
+                    if k < 5:
+                        body = "".join(rng.choice("abcé€ ") for _ in range(rng.choice([0, 1, 5, 20, 70, rng.range(0, 300)])))
+                        text = body + rng.choice(["\n", "\n", "\n", "", "|", "\nzz"])
+                        n = len(on_disk(text, newline).encode("utf8"))
+                        before = os.stat(path).st_size
+                        f.write(text)
+                        flushed = os.stat(path).st_size - before
+                        total += n
+                        toks.append("W%d:%d" % (n, flushed))
+                    elif k < 7:
+                        blob = b"#" * rng.range(1, 40)
+                        with open(path, "ab") as other:
+                            other.write(blob)
+                        total += len(blob)
+                        toks.append("X%d" % len(blob))
+                    elif k == 7:
+                        vals.append(f.tell())
+                        toks.append("Mt")
+                    elif k == 8:
+                        vals.append(os.fstat(f.fileno()).st_size)
+                        toks.append("Mf")
+                    else:
+                        f.seek(0, 2)
+                        v = f.tell()
+                        vals.append(v)
+                        toks.append("Ms")
+                        if v != total:
+                            ctx.violation("text stream opened with buffering=%r: after seek(0, 2) tell() is %d but the file "
+                                          "holds %d bytes (ops %s)" % (buffering, v, total, " ".join(toks)),
+                                          {"stream": "textstream", "buffering": buffering, "ops": toks, "observed": v,
+                                           "expected": total})
+                disk = os.stat(path).st_size
+                pos = os.lseek(f.fileno(), 0, os.SEEK_CUR)
+            finally:
+                f.close()
+            os.remove(path)
+            ctx.case(("textstream", buffering, newline, P, tuple(toks)), nontrivial=("Ms" in toks and any(t[0] == "W" for t in toks)))
+            ctx.stat("text_stream_cases")
+            ctx.stat("text_stream_buffering:%s" % buffering)
+            lines.append("stream %d %s" % (P, " ".join(toks)))
+            exp.append((buffering, toks, "ok %s %d %d %d" % (",".join(str(v) for v in vals), disk, total - disk, pos)))
+    finally:
+        shutil.rmtree(d, ignore_errors=True)
+    try:
+        out = drv.run(lines)
+    except core.DriverError as e:
+        ctx.broke("driver:" + DRIVER, str(e))
+        out = []
+    for (buffering, toks, want), o in zip(exp, out):
+        ctx.traces_validated += 1
+        if o != want:
+            ctx.stat("disagreements")
+            ctx.broke("correspondence Rotation.Stream", "buffering=%r ops=%s: CPython %r, model %r" % (buffering, " ".join(toks), want, o))
+
+
 def canon_files(idx_lists):
     non = [f for f in idx_lists if f]
     return R.show_files(non) + " e%d" % (len(idx_lists) - len(non))
@@ -494,6 +683,52 @@ def run(ctx):
                   newline=c.get("newline", "default"), path_kind=c.get("path_kind", "plain"),
                   errors=c.get("errors", "default"))
 
+    # ---- stream 2: spellings of sizes denote the documented quantities (value level; evaluated before the sink-level
+    # stream so that a wrong QUANTITY is reported as such, not through one of its consequences on a directory)
+    vr = rng.fork("values")
+    from loguru import _string_parsers as sp
+    plines, pexp = [], []
+    for i in range(ctx.n(3000, 100000)):
+        prefix_i = vr.choice([0, 0, 1, 1, 2, 2, 3, 4, 5, 6, 7, 8])
+        binary = vr.chance(35) and prefix_i > 0
+        bits = vr.chance(30)
+        value = Fraction(vr.choice([1, 2, 8, 10, 16, 100, 500, 1024, vr.range(1, 5000), 1004, 12, 1001, vr.range(1, 5000)]))
+        if vr.chance(35):
+            value += Fraction(vr.choice([5, 25, 75, 125, 1, 3]), vr.choice([10, 100, 1000]))
+        s = spell_size(vr, value, prefix_i, binary, bits)
+        want = exact_size(value, prefix_i, binary, bits)
+        try:
+            r = sp.parse_size(s)
+        except Exception as ex:  # noqa
+            r = ex
+        ctx.case(("size", s), nontrivial=True)
+        ctx.stat("parse_size")
+        ctx.stat("parse_size:%s%s%s" % (PREFIX[prefix_i - 1] if prefix_i else "", "i" if binary else "", "b" if bits else "B"))
+        ok = is_number(r) and abs(Fraction(r) - want) <= want / 2**48
+        if not ok:
+            ctx.violation("parse_size(%r) = %r, the spelling denotes %s bytes%s" % (
+                s, r, want, "" if not is_number(r) or want.denominator == 1 else
+                " (a fractional quantity: no file may grow beyond %d bytes)" % (want.numerator // want.denominator)),
+                {"stream": "size", "text": s, "expected": str(want)})
+        plines.append("size " + enc(s))
+        pexp.append((s, r, want))
+    alpha = ["1", "0", "5", ".", " ", "e", "E", "-", "+", "k", "K", "m", "g", "i", "I", "b", "B", "b", "B", "kb", "MiB", "1.5",
+             "z", "y", "\t", "x", "d", "h"]
+    alines, aexp = [], []
+    for i in range(ctx.n(2000, 80000)):
+        s = "".join(vr.choice(alpha) for _ in range(vr.range(1, 6)))
+        if vr.chance(60):
+            s = vr.choice(["1", "12", "1.5", "1e3", "+2", ".5", "1.", "1e", "-1", "1.2.3", "e1"]) + s
+        try:
+            r = sp.parse_size(s)
+            e = "none" if r is None else ("num", r)
+        except Exception as ex:  # noqa
+            e = "err " + R.canon_err(ex)
+        ctx.case(("size-adv", s))
+        ctx.stat("parse_size_adversarial:" + (e if isinstance(e, str) else "value"))
+        alines.append("size " + enc(s))
+        aexp.append((s, e))
+
     # ---- stream 1: real FileSinks around the limit
     n1 = ctx.n(2500, 30000) * boost
     for i in range(n1):
@@ -514,7 +749,10 @@ def run(ctx):
             kinds = rng.choice([["ascii"], ["two"], ["three"], ["four"], ["ascii", "two", "three", "four"], ["latin"]])
         around = rng.choice([16, 24, 40, 64, 100, rng.range(8, 200)])
         obj, item, S, how = gen_limit(rng, around)
-        P = rng.choice([0, 0, 0, rng.range(1, S), S, S + rng.range(1, 30), S - 1 if S > 1 else 0])
+        if S >= 2:
+            P = rng.choice([0, 0, 0, rng.range(1, S), S, S + rng.range(1, 30), S - 1 if S > 1 else 0])
+        else:
+            P = rng.choice([0, 0, 5, 1])       # limits of one byte, zero, negative: every record gets its own file
         pure = True
         token = item
         off = rng.choice(R.OFFSETS)
@@ -532,7 +770,12 @@ def run(ctx):
                 obj, token = [tobj, obj], ttok + ";" + item
             if rng.chance(30):
                 obj = tuple(obj)
+            elif rng.chance(15):
+                obj = [obj[:1], obj[1]]          # a nested list: any(any(...), ...) is the same any-of
             how += "+time"
+        elif rng.chance(6) and not isinstance(obj, bool):
+            obj = rng.choice([[obj], (obj,), {obj}, [[obj]]])     # containers of one condition
+            how += "+container"
         buffering = rng.choice(BUFFERINGS)
         newline = rng.choice(NEWLINES)
         path_kind = rng.choice(PATH_KINDS)
@@ -619,48 +862,6 @@ def run(ctx):
         flines.append("sink N%d 0 %d %s" % (S, P, toks))
         fexp.append((rep_, canon_files(idx_files)))
 
-    # ---- stream 2: spellings of sizes denote the documented quantities (value level)
-    from loguru import _string_parsers as sp
-    plines, pexp = [], []
-    for i in range(ctx.n(3000, 100000)):
-        prefix_i = rng.choice([0, 0, 1, 1, 2, 2, 3, 4, 5, 6, 7, 8])
-        binary = rng.chance(35) and prefix_i > 0
-        bits = rng.chance(30)
-        value = Fraction(rng.choice([1, 2, 8, 10, 16, 100, 500, 1024, rng.range(1, 5000)]))
-        if rng.chance(35):
-            value += Fraction(rng.choice([5, 25, 75, 125, 1, 3]), rng.choice([10, 100, 1000]))
-        s = spell_size(rng, value, prefix_i, binary, bits)
-        want = exact_size(value, prefix_i, binary, bits)
-        try:
-            r = sp.parse_size(s)
-        except Exception as ex:  # noqa
-            r = ex
-        ctx.case(("size", s), nontrivial=True)
-        ctx.stat("parse_size")
-        ctx.stat("parse_size:%s%s%s" % (PREFIX[prefix_i - 1] if prefix_i else "", "i" if binary else "", "b" if bits else "B"))
-        ok = isinstance(r, float) and abs(Fraction(r) - want) <= want / 2**48
-        if not ok:
-            ctx.violation("parse_size(%r) = %r, the spelling denotes %s bytes" % (s, r, want),
-                          {"stream": "size", "text": s, "expected": str(want)})
-        plines.append("size " + enc(s))
-        pexp.append((s, r, want))
-    alpha = ["1", "0", "5", ".", " ", "e", "E", "-", "+", "k", "K", "m", "g", "i", "I", "b", "B", "b", "B", "kb", "MiB", "1.5",
-             "z", "y", "\t", "x", "d", "h"]
-    alines, aexp = [], []
-    for i in range(ctx.n(2000, 80000)):
-        s = "".join(rng.choice(alpha) for _ in range(rng.range(1, 6)))
-        if rng.chance(60):
-            s = rng.choice(["1", "12", "1.5", "1e3", "+2", ".5", "1.", "1e", "-1", "1.2.3", "e1"]) + s
-        try:
-            r = sp.parse_size(s)
-            e = "none" if r is None else ("num", r)
-        except Exception as ex:  # noqa
-            e = "err " + R.canon_err(ex)
-        ctx.case(("size-adv", s))
-        ctx.stat("parse_size_adversarial:" + (e if isinstance(e, str) else "value"))
-        alines.append("size " + enc(s))
-        aexp.append((s, e))
-
     try:
         out = drv.run(lines + plines + alines + flines)
     except core.DriverError as e:
@@ -706,6 +907,10 @@ def run(ctx):
         if not good:
             ctx.stat("disagreements")
             ctx.broke("correspondence Rotation.parseSize", "parse_size(%r): impl %r, model %r" % (s, e, o))
+    # ---- stream 5: parse_size in binary64, bit for bit
+    run_float_stream(ctx, drv, rng.fork("float"))
+    # ---- stream 4: CPython's buffered text stream vs the stream model (what `tell` is)
+    run_text_stream(ctx, drv, rng.fork("textstream"))
     R.dedup_broken(ctx)
 
 
@@ -727,7 +932,7 @@ def replay(ctx, rep):
         except Exception as ex:  # noqa
             v = ex
         want = Fraction(r["expected"])
-        bad = not (isinstance(v, float) and abs(Fraction(v) - want) <= want / 2**48)
+        bad = not (is_number(v) and abs(Fraction(v) - want) <= want / 2**48)
         print("parse_size(%r) = %r, expected %s" % (r["text"], v, want))
     else:
         obj = R.object_of_token(r["token"])
